@@ -524,13 +524,32 @@ func runC07(c *core.Ctx) {
 				}
 				// argument = uint32(closed >> 32) where closed is the loaded closed word
 				v := call.Common().Args[0]
-				if cv, isCv := v.(*ssa.Convert); isCv {
-					v = cv.X
+				isLoad := func(x ssa.Value) bool {
+					ld, isLd := x.(*ssa.Call)
+					return isLd && ld.Common().StaticCallee() != nil && ld.Common().StaticCallee().Name() == "Load"
 				}
-				if bo, isBo := v.(*ssa.BinOp); isBo && bo.Op == token.SHR {
-					if k, isK := bo.Y.(*ssa.Const); isK && k.Uint64() == 32 {
-						if ld, isLd := bo.X.(*ssa.Call); isLd && ld.Common().StaticCallee() != nil && ld.Common().StaticCallee().Name() == "Load" {
-							ok = true
+				// highHalfOf(x): x is uint32(y >> 32); returns y
+				highHalfOf := func(x ssa.Value) ssa.Value {
+					if cv, isCv := x.(*ssa.Convert); isCv {
+						x = cv.X
+					}
+					if bo, isBo := x.(*ssa.BinOp); isBo && bo.Op == token.SHR {
+						if k, isK := bo.Y.(*ssa.Const); isK && k.Uint64() == 32 {
+							return bo.X
+						}
+					}
+					return nil
+				}
+				if y := highHalfOf(v); y != nil && isLoad(y) {
+					ok = true
+				}
+				// through a helper `func(closed uint64) uint32 { return uint32(closed >> 32) }` applied to the loaded word
+				if hc, isCall := v.(*ssa.Call); isCall && len(hc.Common().Args) == 1 && isLoad(hc.Common().Args[0]) {
+					if h := hc.Common().StaticCallee(); h != nil && len(h.Blocks) == 1 && len(h.Params) == 1 {
+						if r, isR := h.Blocks[0].Instrs[len(h.Blocks[0].Instrs)-1].(*ssa.Return); isR && len(r.Results) == 1 {
+							if y := highHalfOf(r.Results[0]); y == ssa.Value(h.Params[0]) {
+								ok = true
+							}
 						}
 					}
 				}
